@@ -234,9 +234,11 @@ def to_chain_structure(qc, setup="linear"):
                     )
 
         else:
-            # This gate can be general quantum operations
-            # such as measurement or global phase.
-            qc_t.add_gate(gate)
+            # This can be any other quantum operation, such as a
+            # single-qubit gate, a measurement or a global phase.
+            # It is passed through unchanged (add_gate would wrap a
+            # measurement into a gate).
+            qc_t.gates.append(gate)
 
     # The routed circuit must not share gate objects or index lists
     # with the input circuit.
